@@ -730,6 +730,9 @@ pub fn run(cfg: &RunCfg) -> i32 {
   report.assume("rewriter sub-rules are matched through the public Matcher API with a copy of the enclosing environment");
   let known = Known::load(&cfg.prop);
   if let Some(path) = &cfg.replay {
+    if read_replay(path).stage == "update-all" {
+      return crate::replay_main::<crate::c18::Case>(cfg, path, crate::c18::check);
+    }
     return crate::replay_main::<Case>(cfg, path, check);
   }
   let corpus = Corpus::load();
@@ -738,6 +741,12 @@ pub fn run(cfg: &RunCfg) -> i32 {
   let total = cfg.budget(15_000, 400_000);
   let o = drive(cfg, "rewrites", total, &known, || strategy(&opts), |c, st| interpret(&corpus, &opts, c, st), check);
   report.absorb("rewrites", o);
+  // the property's last observation point, "file bytes after --update-all": projects of C18
+  // judged by O-update (old content + announced edits = new content, nothing else moves)
+  let total = cfg.budget(400, 4_000);
+  let o = drive(cfg, "update-all", total, &known, crate::c18::strategy, crate::c18::interpret, crate::c18::check);
+  report.absorb("update-all", o);
+  crate::cli::cleanup_work_root();
   report.floor("nontrivial", 0.2, "evaluations");
   crate::fuzz::stage(cfg, &mut report, &known, 20000);
   report.finish()
